@@ -293,6 +293,7 @@ class ToolStuck(BaseException):
 
 STUCK = {'n': 0}
 TIMES = []      # seconds per event of the runs so far
+SLOW = {'s': 0.0}   # seconds spent beyond 30 times the usual, summed over the sessions of this process
 
 
 def _rss_mb():
@@ -337,24 +338,40 @@ class limit:
 
 def run(trace, *args, **kw):
     """run_unguarded under the resource guard (see `limit`)"""
+    return guarded(run_unguarded, trace, *args, **kw)
+
+
+def guarded(fn, trace, *args, **kw):
+    """fn(trace, ...) - a driver that runs the tool in this process - under the resource guard"""
     # the limit is relative to what sessions take in this process when all is well (milliseconds to a second): 300 times
     # the median per event so far, at least 15 s; 150 s while nothing is known yet
     import time
     n = max(1, len(trace['events']))
     if len(TIMES) >= 20:
-        med = sorted(TIMES)[len(TIMES) // 2]
-        secs = max(15.0, 300 * med * n)
+        # (the first sessions of the process are the yardstick: a tool that gets a little slower with every session must not
+        # move it)
+        base = sorted(TIMES[:50])[min(len(TIMES), 50) // 2]
+        secs = max(15.0, 300 * base * n)
     else:
+        base = None
         secs = 150 + n // 20
     if STUCK['n']:
         secs = min(secs, 15.0)
     out = trace
     t0 = time.time()
+    if 'rss0' not in SLOW:
+        SLOW['rss0'] = _rss_mb()
     try:
+        if SLOW['s'] > 120 or _rss_mb() - SLOW['rss0'] > 8000:
+            raise ToolStuck('the tool has become slower and bigger from session to session in this process: %d s beyond 30 times '
+                            'the usual time so far, %d MB more than at the start' % (SLOW['s'], _rss_mb() - SLOW['rss0']))
         with limit(secs):
-            out = run_unguarded(trace, *args, **kw)
+            out = fn(trace, *args, **kw)
+        dur = time.time() - t0
         if len(TIMES) < 2000:
-            TIMES.append((time.time() - t0) / n)
+            TIMES.append(dur / n)
+        if base is not None:
+            SLOW['s'] += max(0.0, dur - 30 * base * n - 0.5)
     except ToolStuck:
         import traceback
         trace['escaped'] = traceback.format_exc()[-2000:]
